@@ -3,6 +3,7 @@ Used in-process (props/c07_reproducibility.py) and in child interpreters (props/
 from vlib import stoch
 from vlib.simharness import Harness, RefSim, enc_obs, dec_ref
 
+LAST_CLOCK_ADVANCES = None
 _TYPES = []
 _PRIOR_COUNTER = [0]
 
@@ -92,6 +93,11 @@ def prior_activity(n):
             keep.append({str(i): [i] * (i % 13)})
     del keep[::3]
     return keep
+
+
+def _tval(x):
+    """numeric value of an encoded time (0.0 and -0.0 are the same time)"""
+    return float.fromhex(x) if isinstance(x, str) else (float.fromhex(x[0]) if isinstance(x, list) else x)
 
 
 def seeds_through_updater(case):
@@ -212,19 +218,24 @@ def run_program(case, drive, twice=False):
         d["deliveries"] = h.model.deliveries
         d["seeds_used"] = list(case["seeds"])
         d["starting_listeners"] = starting_log
+        # the clock a TIME_CHANGED listener reads: announcements that do change the time, with the old clock value
+        # (side channel, not part of the digest: after a bounded run the old clock legitimately is the bound)
+        global LAST_CLOCK_ADVANCES
+        LAST_CLOCK_ADVANCES = [[_tval(x[0]), _tval(x[1])] for x in h.rec.tc_seen if _tval(x[0]) != _tval(x[1])]
         if slow_probe:
             d["slow_probe"] = slow_probe
         # the pause/segmentation changes START/STOP notifications by design: normalise them away
         d["notifications"] = [e for e in d["notifications"] if e[0] in
                               ("START_REPLICATION", "TIME_CHANGED", "WARMUP", "END_REPLICATION")]
         # a time that is announced again after a pause is not a difference: keep each TIME_CHANGED value once
+        tval = _tval
         norm = []
-        last_tc = None
+        last_tc = tval(enc_obs(h.replication.start_sim_time))     # (step() also announces a time that is no change)
         for e in d["notifications"]:
             if e[0] == "TIME_CHANGED":
-                if last_tc == e[1]:
+                if last_tc == tval(e[1]):
                     continue
-                last_tc = e[1]
+                last_tc = tval(e[1])
             norm.append(e)
         d["notifications"] = norm
         return d
